@@ -8,7 +8,7 @@ from __future__ import annotations
 
 import ast
 
-from ..fdai import Interp, Obj, PyRaise, Unknown, ExcVal, explore, freeze, Imprecise
+from ..fdai import Interp, Obj, PyRaise, Unknown, ExcVal, explore, freeze, Imprecise, SkipPath
 from ..loader import AnchorError, is_self_attr, src, walk_no_nested
 from ..resolve import Resolver
 from ..rules import dict_key_field
@@ -71,8 +71,8 @@ class LoopNames:
                 def go(o, _f=f, _start=start):
                     it = Interp(p, o)
                     it.stubs["BioAgent.__init__"] = lambda interp, args, kwargs: None
-                    obj = it.instantiate(loop, [], dict(budget=Obj(None, {}, tag="budget"), enable_circuit_breaker=True, failure_threshold=Unknown("failure_threshold"),
-                                                        recovery_timeout_seconds=Unknown("recovery_timeout_seconds"), silent=True, on_block=None, on_permit=None))
+                    obj = it.instantiate(loop, [], dict(budget=Obj(None, {}, tag="budget"), enable_circuit_breaker=True, failure_threshold=Unknown("failure_threshold", kind="int"),
+                                                        recovery_timeout_seconds=Unknown("recovery_timeout_seconds", kind="real"), silent=True, on_block=None, on_permit=None))
                     obj.fields[self.state] = it.enum_member(cstate, _start)
                     for fld in (self.count, self.successes, self.last_failure, self.trips):
                         if fld is not None:
@@ -189,11 +189,28 @@ class Harness:
         N = self.names
         it.trace_calls = {f.qual for f in (N.admit, N.rec_failure, N.rec_success, N.cache_check) if f is not None}
         budget = Obj(None, {}, tag="budget")
+        try:
+            obj = self._construct(it, budget, gate, breaker, cache, silent)
+        except PyRaise:
+            raise SkipPath()          # the constructor rejects this configuration: not a loop to study
+        return self._finish_build(it, obj, state)
+
+    def _construct(self, it, budget, gate, breaker, cache, silent):
         obj = it.instantiate(self.loop, [], dict(
             budget=budget, gate_logic=it.enum_member(self.gate, gate) if isinstance(gate, str) else gate,
-            enable_circuit_breaker=breaker, failure_threshold=Unknown("failure_threshold"),
-            recovery_timeout_seconds=Unknown("recovery_timeout_seconds"), enable_cache=cache,
-            cache_ttl_seconds=Unknown("cache_ttl_seconds"), silent=silent, on_block=None, on_permit=None))
+            enable_circuit_breaker=breaker, failure_threshold=Unknown("failure_threshold", kind="int"),
+            recovery_timeout_seconds=Unknown("recovery_timeout_seconds", kind="real"), enable_cache=cache,
+            cache_ttl_seconds=Unknown("cache_ttl_seconds", kind="real"), silent=silent, on_block=None, on_permit=None))
+        return obj
+
+    def _finish_build(self, it, obj, state):
+        N = self.names
+        # the configuration as the loop will read it: whatever the constructor did with the arguments (validation,
+        # normalisation, clamping), the studied loop has an arbitrary valid threshold / timeouts
+        for fld in list(obj.fields):
+            for stem, kind in (("failure_threshold", "int"), ("recovery_timeout", "real"), ("cache_ttl", "real")):
+                if stem in fld and not callable(obj.fields[fld]):
+                    obj.fields[fld] = Unknown(stem + ("_seconds" if stem != "failure_threshold" else ""), kind=kind)
         obj.fields[N.state] = it.enum_member(self.cstate, state)
         for f in (N.count, N.successes, N.last_failure, N.trips):
             if f is not None:
